@@ -9,6 +9,7 @@ import random
 import numpy as np
 
 from harness.core import Machinery
+from harness.core import to_int as safe_int
 from harness import simlayout as sl
 from harness.scenarios import STD
 
@@ -42,6 +43,8 @@ def field(shape, kind, dtype):
 
 def to_int(x, scale):
     y = float(x) * scale
+    if not np.isfinite(y) or abs(y) >= 2e9:
+        return safe_int(y), False            # non-finite / huge results of the code: reported as inexact, never a crash of the harness
     r = round(y)
     return int(r), bool(abs(y - r) <= 1e-9 * max(1.0, abs(y)))
 
@@ -233,7 +236,8 @@ def run(ctx):
                         if v[0] == "minmax":
                             lay = STD[v[1]]
                             events.append({"k": "minmax", "kind": kind, "sh": shape, "fix": [[a + 1, b] for a, b in v[3]],
-                                           "mn": int(round(v[4])), "mx": int(round(v[5])), "ok": bool(np.isfinite(v[4]) and np.isfinite(v[5]))})
+                                           "mn": int(round(v[4])) if np.isfinite(v[4]) else 0, "mx": int(round(v[5])) if np.isfinite(v[5]) else 0,
+                                           "ok": bool(np.isfinite(v[4]) and np.isfinite(v[5]))})
                             meta.append(dict(m0, what="minmax", layout=v[1], root=v[2], fix=v[3]))
         # min / max reports of one grid object through layout changes, save and restore
         out = [[] for _ in range(n)]
@@ -283,8 +287,8 @@ def run(ctx):
                             events.append({"k": "reduce", "q": q, "kind": "tok", "cplx": bool(sh3), "sh": shape[:3] if sh3 else shape, "r": eta[0],
                                            "v": [0, 1] if sh3 else eta[3], "total": ti, "exact": ex, "ok": True})
                             meta.append(dict(m0, what="reduce-" + key))
-                        events.append({"k": "minmax", "kind": "tok", "sh": shape, "fix": [], "mn": int(round(v[1]["mn"])),
-                                       "mx": int(round(v[1]["mx"])), "ok": True})
+                        events.append({"k": "minmax", "kind": "tok", "sh": shape, "fix": [], "mn": safe_int(v[1]["mn"]),
+                                       "mx": safe_int(v[1]["mx"]), "ok": True})
                         meta.append(dict(m0, what="reduce-minmax"))
             if not res.ok and not any(v[0] == "slot" and not v[4] for o in out for v in o):
                 events.append({"k": "slot", "step": 0, "S": S, "written": [], "ok": False, "err": res.describe()})
